@@ -40,6 +40,20 @@ static void O64(uint64_t v) { obs = mix64(obs, v); }
 static void after(void *fn, const char *cls)
 {
         out_count("tramp_calls", 1);
+        { static int nsamp;     /* evidence: the first trampoline calls of this worker, written out */
+          if (nsamp < 40) { nsamp++; clog_on = 1;
+                if (mode == M_ABI) {
+                        clog_title("calls through the assembly trampoline: sentinels in rbx rbp r12-r15, canary words above the callee's frame, non-default MXCSR and x87 control word, entry rsp lowered by 16 x shift; full register file captured at return");
+                        clog_event("%s (%s; %s) shift=%u: returned rax=%llx rbx=%llx rbp=%llx r12=%llx r15=%llx mxcsr=%x fcw=%x DF=%d", fname(fn), scen, cls, tramp_stack_shift, (unsigned long long) tramp_cap[0], (unsigned long long) tramp_cap[1],
+                                   (unsigned long long) tramp_cap[6], (unsigned long long) tramp_cap[12], (unsigned long long) tramp_cap[15], tramp_cap_mxcsr, tramp_cap_fcw, (int) (tramp_cap_flags >> 10 & 1));
+                } else if (mode == M_SECRETS) {
+                        clog_title("after each call the captured zmm0-31 (16-byte lanes) and the 64 KiB below the stack pointer are searched for reference-computed secret blocks (round keys, hash-key powers, E_K2(T), ...)");
+                        clog_event("%s (%s; %s): %d secret blocks searched%s%s", fname(fn), scen, cls, nneed, nneed ? ", e.g. " : "", nneed ? needles[nneed - 1].name : "");
+                } else {
+                        clog_title("each scenario is executed three times with identical declared inputs and different hidden state (caller-saved registers, zmm/k registers, flags, dead stack fill, output prefill, uninitialised object bytes); the hash of all observable outputs must agree");
+                        clog_event("%s (%s; %s): hidden gpr=%llx stack fill=%02x flags=%llx -> running hash of observable outputs %016llx", fname(fn), scen, cls, (unsigned long long) H.gpr, H.stack, (unsigned long long) H.flags, (unsigned long long) obs);
+                }
+                clog_on = 0; } }
         if (mode == M_ABI) {
                 char why[200];
                 if (!tramp_abi_ok(why, sizeof why)) {
